@@ -227,6 +227,9 @@ func (r *Run) Violation(key, what string, replay interface{}) {
 		}
 		if len(r.childViols) < 50 {
 			r.childViols = append(r.childViols, childViolation{key, what, replay})
+			if r.childNew < 5 {
+				r.dumpChildAs(r.childOut, false)
+			}
 		}
 		r.childNew++
 		return
